@@ -47,23 +47,24 @@ def origin(fn, local, depth=0, seen=None):
     for (_b, _i, rhs) in ds[:4]:
         o1 = rhs_origin(fn, rhs, depth + 1, seen)
         if SITE_TAGS and _i == "term" and o1.startswith("call "):
-            # call-site tag (used by mirdec for variable identity): block + source names of the argument locals
-            blk = fn.blocks.get(_b)
-            names = []
-            if blk is not None:
-                for a_ in M._split_top(blk.args):
-                    mm = re.match(r"^(?:move |copy )?(_\d+)$", a_.strip())
-                    nm = ""
-                    if mm:
-                        nm = _debug_name(fn, mm.group(1))
-                    names.append(nm)
-            o1 += "\u27e8bb%d%s\u27e9" % (_b, (":" + ",".join(names)) if any(names) else "")
+            o1 += site_tag(fn, _b)
         outs.append(o1)
     outs = sorted(set(outs))
     return outs[0] if len(outs) == 1 else "alt(" + " | ".join(outs) + ")"
 
 
 SITE_TAGS = False
+
+
+def site_tag(fn, bidx):
+    """Call-site tag (used by mirdec for variable identity): block + source names of the argument locals."""
+    blk = fn.blocks.get(bidx)
+    names = []
+    if blk is not None:
+        for a_ in M._split_top(blk.args):
+            mm = re.match(r"^(?:move |copy )?(_\d+)$", a_.strip())
+            names.append(_debug_name(fn, mm.group(1)) if mm else "")
+    return "\u27e8bb%d%s\u27e9" % (bidx, (":" + ",".join(names)) if any(names) else "")
 
 
 def _debug_name(fn, loc, depth=0):
